@@ -23,7 +23,23 @@
 //        (only when built with -DC03_WITH_EMBED: tapkee.hpp takes minutes to compile, the other
 //         commands need three light headers; without the define the answer is "R I not-built")
 //
+//   WF / WD / WX  <as F / D / X up to N> <e> <T> <id_0 .. id_{N-1}> <T*dim ints>
+//                                            the same three commands over a NON-IDENTITY index range and a scaled
+//                                            metric: the table holds T points, begin..end runs over the vector
+//                                            (id_0, .., id_{N-1}) of ids into the table (any order, any offset,
+//                                            ids need not be contiguous), the callback returns ldexp(L1, e).
+//                                            Neighbour lists hold POSITIONS in begin..end, as with F.
+//   P <N> <k> <shape> <rev>                  is_connected on a graph generated here from the four integers
+//                                            (shape 0 path i -> i+1.., 1 cycle i -> i+1.. mod N, 2 two-way chain;
+//                                            rev 1: the same graph with the samples numbered backwards), meant for
+//                                            N ~ 10^6; run the driver with the argument --stack-kib 8192 to give the
+//                                            process an explicit 8 MiB stack limit (setrlimit + re-exec)
+//        -> "R P <0|1> <checksum of the lists>"
+//
 // A line "C <n>" is printed and flushed before each case so that an abort can be attributed.
+#include <sys/resource.h>
+#include <unistd.h>
+
 #include <cmath>
 #include <cstdio>
 #include <cstdlib>
@@ -47,6 +63,7 @@ struct Points
 {
     int dim;
     std::vector<long long> xs;
+    int scale_exp = 0; // the metric is ldexp(L1, scale_exp): exact in binary64 for the ranges used
 };
 
 struct l1_distance_callback
@@ -58,7 +75,7 @@ struct l1_distance_callback
         long long s = 0;
         for (int c = 0; c < pts->dim; c++)
             s += std::llabs(pts->xs[a * pts->dim + c] - pts->xs[b * pts->dim + c]);
-        return (ScalarType)s;
+        return pts->scale_exp == 0 ? (ScalarType)s : (ScalarType)std::ldexp((double)s, pts->scale_exp);
     }
 };
 
@@ -93,8 +110,79 @@ static void print_lists(const Neighbors& nb)
     }
 }
 
-int main()
+// the graphs of command P; checks/c03.py has the same generator (deep_rows) and compares the checksum
+static int deep_entry(long long N, int k, int shape, long long i, int j)
 {
+    long long t;
+    if (shape == 1)
+        t = (i + j + 1) % N;
+    else if (shape == 2)
+    {
+        long long lo = i == 0 ? 1 : i - 1, hi = i + 1 < N ? i + 1 : i - 1;
+        t = j == 0 ? lo : hi;
+    }
+    else
+    {
+        t = i + j + 1;
+        if (t >= N) t = i - (t - N + 1);
+    }
+    if (t < 0) t = 0;
+    if (t >= N) t = N - 1;
+    return (int)t;
+}
+
+static void handle_deep(std::istringstream& is)
+{
+    long long N;
+    int k, shape, rev;
+    is >> N >> k >> shape >> rev;
+    if (is.fail() || N < 2 || N > 20000000 || k < 1 || k > 8) { printf("R P bad-input\n"); return; }
+    Neighbors nb((size_t)N);
+    unsigned long long sum = 0;
+    const unsigned long long MOD = 2305843009213693951ULL;
+    for (long long v = 0; v < N; v++)
+    {
+        // position v holds sample i = v (rev 0) or i = N-1-v (rev 1); entries are renamed the same way
+        long long i = rev ? N - 1 - v : v;
+        nb[v].reserve(k);
+        for (int j = 0; j < k; j++)
+        {
+            long long t = deep_entry(N, k, shape, i, j);
+            int e = (int)(rev ? N - 1 - t : t);
+            nb[v].push_back(e);
+            sum = (sum + ((unsigned long long)(v % 1000003) * 31 + j * 17 + 7) * ((unsigned long long)e + 1)) % MOD;
+        }
+    }
+    Indices idx((size_t)N);
+    for (long long i = 0; i < N; i++) idx[i] = (int)i;
+    bool r = is_connected(idx.begin(), idx.end(), nb);
+    printf("R P %d %llu\n", r ? 1 : 0, sum);
+}
+
+static void run_points(const std::string& cmd, int m, int cc, int k, int N, Points& pts, Indices& idx);
+
+int main(int argc, char** argv)
+{
+    if (argc == 3 && std::string(argv[1]) == "--stack-kib")
+    {
+        // explicit stack limit for this process image: set it, then start again so that it is in force from exec
+        struct rlimit rl;
+        getrlimit(RLIMIT_STACK, &rl);
+        rlim_t want = (rlim_t)atol(argv[2]) * 1024;
+        if (rl.rlim_max != RLIM_INFINITY && want > rl.rlim_max) want = rl.rlim_max;
+        rl.rlim_cur = want;
+        if (setrlimit(RLIMIT_STACK, &rl) != 0) { perror("setrlimit"); return 97; }
+        char* args[] = {argv[0], nullptr};
+        execv("/proc/self/exe", args);
+        perror("execv");
+        return 98;
+    }
+    {
+        struct rlimit rl;
+        getrlimit(RLIMIT_STACK, &rl);
+        if (rl.rlim_cur == RLIM_INFINITY) printf("L unlimited\n");
+        else printf("L %llu\n", (unsigned long long)rl.rlim_cur);
+    }
     Logging::instance().disable_info();
     Logging::instance().disable_warning();
     Logging::instance().disable_debug();
@@ -152,105 +240,125 @@ int main()
             bool r = is_connected(idx.begin(), idx.end(), nb);
             printf("R G %d\n", r ? 1 : 0);
         }
-        else if (cmd == "X")
+        else if (cmd == "P")
+            handle_deep(is);
+        else if (cmd == "X" || cmd == "F" || cmd == "D" || cmd == "I" || cmd == "WX" || cmd == "WF" || cmd == "WD")
         {
-            int m, k, dim, N;
-            is >> m >> k >> dim >> N;
-            Points pts;
-            if (is.fail() || !read_points(is, dim, N, pts)) { printf("R X bad-input\n"); continue; }
-            Indices idx(N);
-            for (int i = 0; i < N; i++) idx[i] = i;
-            l1_distance_callback dcb(&pts);
-            Neighbors nb = find_neighbors(method_of(m), idx.begin(), idx.end(), Plain(dcb), k, true);
-            printf("R X");
-            print_lists(nb);
-            std::vector<int> ks;
-            int kj = k > N - 1 ? N - 1 : k;
-            while (true)
-            {
-                ks.push_back(kj);
-                if (kj >= N - 1 || kj <= 0 || ks.size() > 40) break;
-                kj = 2 * kj > N - 1 ? N - 1 : 2 * kj;
-            }
-            printf(" T %d", (int)ks.size());
-            for (size_t t = 0; t < ks.size(); t++)
-            {
-                Neighbors nt = find_neighbors(method_of(m), idx.begin(), idx.end(), Plain(dcb), ks[t], false);
-                printf(" %d", ks[t]);
-                print_lists(nt);
-            }
-            printf("\n");
-        }
-        else if (cmd == "F" || cmd == "D" || cmd == "I")
-        {
+            bool wide = cmd[0] == 'W';
+            std::string base = wide ? cmd.substr(1) : cmd;
             int m, cc = 1, k, dim, N;
             is >> m;
-            if (cmd == "F") is >> cc;
+            if (base == "F") is >> cc;
             is >> k >> dim >> N;
-            Points pts;
-            if (!read_points(is, dim, N, pts)) { printf("R %s bad-input\n", cmd.c_str()); continue; }
-            Indices idx(N);
-            for (int i = 0; i < N; i++) idx[i] = i;
-            l1_distance_callback dcb(&pts);
-            if (cmd == "I")
+            if (is.fail() || N < 0 || N > 1000000 || dim < 1 || dim > 8)
             {
-#ifndef C03_WITH_EMBED
-                printf("R I not-built\n");
-#else
-                try
-                {
-                    TapkeeOutput out = tapkee::with((method = Isomap, num_neighbors = k, target_dimension = 1,
-                                                     neighbors_method = method_of(m)))
-                                           .withDistance(dcb)
-                                           .embedUsing(idx);
-                    long bad = 0;
-                    for (int i = 0; i < out.embedding.rows(); i++)
-                        for (int j = 0; j < out.embedding.cols(); j++)
-                            if (!std::isfinite(out.embedding(i, j))) bad++;
-                    printf("R I ok %ld\n", bad);
-                }
-                catch (const std::exception& ex)
-                {
-                    std::string w = ex.what();
-                    for (size_t i = 0; i < w.size(); i++)
-                        if (w[i] == ' ' || w[i] == '\n') w[i] = '_';
-                    printf("R I exc %s\n", w.c_str());
-                }
-#endif
-                fflush(stdout);
+                printf("R %s bad-input\n", base.c_str());
                 continue;
             }
-            Neighbors nb = find_neighbors(method_of(m), idx.begin(), idx.end(), Plain(dcb), k, cc != 0);
-            if (cmd == "F")
+            Points pts;
+            Indices idx(N);
+            bool ok = true;
+            if (wide)
             {
-                printf("R F");
-                print_lists(nb);
-                printf("\n");
+                int e, T;
+                is >> e >> T;
+                ok = !is.fail() && T >= 0 && T <= 1000000 && e >= -300 && e <= 300;
+                for (int i = 0; i < N && ok; i++)
+                    if (!(is >> idx[i]) || idx[i] < 0 || idx[i] >= T) ok = false;
+                ok = ok && read_points(is, dim, T, pts);
+                pts.scale_exp = e;
             }
             else
             {
-                DenseSymmetricMatrix sd = compute_shortest_distances_matrix(idx.begin(), idx.end(), nb, dcb);
-                long inf = 0, nonfinite = 0;
-                for (int i = 0; i < sd.rows(); i++)
-                    for (int j = 0; j < sd.cols(); j++)
-                    {
-                        if (sd(i, j) == std::numeric_limits<DenseMatrix::Scalar>::max()) inf++;
-                        if (!std::isfinite(sd(i, j))) nonfinite++;
-                    }
-                Landmarks lm;
-                for (int i = 0; i < N; i += 2) lm.push_back(i);
-                DenseMatrix ld = compute_shortest_distances_matrix(idx.begin(), idx.end(), lm, nb, dcb);
-                long linf = 0;
-                for (int i = 0; i < ld.rows(); i++)
-                    for (int j = 0; j < ld.cols(); j++)
-                        if (ld(i, j) == std::numeric_limits<DenseMatrix::Scalar>::max() || !std::isfinite(ld(i, j)))
-                            linf++;
-                printf("R D %d %ld %ld %ld\n", nb.empty() ? -1 : (int)nb[0].size(), inf, nonfinite, linf);
+                for (int i = 0; i < N; i++) idx[i] = i;
+                ok = read_points(is, dim, N, pts);
             }
+            if (!ok) { printf("R %s bad-input\n", base.c_str()); continue; }
+            run_points(base, m, cc, k, N, pts, idx);
         }
         else
             printf("R ? unknown-command\n");
         fflush(stdout);
     }
     return 0;
+}
+
+// find_neighbors / geodesic matrix / Isomap over the index range idx (values = ids into pts)
+static void run_points(const std::string& cmd, int m, int cc, int k, int N, Points& pts, Indices& idx)
+{
+    l1_distance_callback dcb(&pts);
+    if (cmd == "X")
+    {
+        Neighbors nb = find_neighbors(method_of(m), idx.begin(), idx.end(), Plain(dcb), k, true);
+        printf("R X");
+        print_lists(nb);
+        std::vector<int> ks;
+        int kj = k > N - 1 ? N - 1 : k;
+        while (true)
+        {
+            ks.push_back(kj);
+            if (kj >= N - 1 || kj <= 0 || ks.size() > 40) break;
+            kj = 2 * kj > N - 1 ? N - 1 : 2 * kj;
+        }
+        printf(" T %d", (int)ks.size());
+        for (size_t t = 0; t < ks.size(); t++)
+        {
+            Neighbors nt = find_neighbors(method_of(m), idx.begin(), idx.end(), Plain(dcb), ks[t], false);
+            printf(" %d", ks[t]);
+            print_lists(nt);
+        }
+        printf("\n");
+        return;
+    }
+    if (cmd == "I")
+    {
+#ifndef C03_WITH_EMBED
+        printf("R I not-built\n");
+#else
+        try
+        {
+            TapkeeOutput out = tapkee::with((method = Isomap, num_neighbors = k, target_dimension = 1,
+                                             neighbors_method = method_of(m)))
+                                   .withDistance(dcb)
+                                   .embedUsing(idx);
+            long bad = 0;
+            for (int i = 0; i < out.embedding.rows(); i++)
+                for (int j = 0; j < out.embedding.cols(); j++)
+                    if (!std::isfinite(out.embedding(i, j))) bad++;
+            printf("R I ok %ld\n", bad);
+        }
+        catch (const std::exception& ex)
+        {
+            std::string w = ex.what();
+            for (size_t i = 0; i < w.size(); i++)
+                if (w[i] == ' ' || w[i] == '\n') w[i] = '_';
+            printf("R I exc %s\n", w.c_str());
+        }
+#endif
+        return;
+    }
+    Neighbors nb = find_neighbors(method_of(m), idx.begin(), idx.end(), Plain(dcb), k, cc != 0);
+    if (cmd == "F")
+    {
+        printf("R F");
+        print_lists(nb);
+        printf("\n");
+        return;
+    }
+    DenseSymmetricMatrix sd = compute_shortest_distances_matrix(idx.begin(), idx.end(), nb, dcb);
+    long inf = 0, nonfinite = 0;
+    for (int i = 0; i < sd.rows(); i++)
+        for (int j = 0; j < sd.cols(); j++)
+        {
+            if (sd(i, j) == std::numeric_limits<DenseMatrix::Scalar>::max()) inf++;
+            if (!std::isfinite(sd(i, j))) nonfinite++;
+        }
+    Landmarks lm;
+    for (int i = 0; i < N; i += 2) lm.push_back(i);
+    DenseMatrix ld = compute_shortest_distances_matrix(idx.begin(), idx.end(), lm, nb, dcb);
+    long linf = 0;
+    for (int i = 0; i < ld.rows(); i++)
+        for (int j = 0; j < ld.cols(); j++)
+            if (ld(i, j) == std::numeric_limits<DenseMatrix::Scalar>::max() || !std::isfinite(ld(i, j))) linf++;
+    printf("R D %d %ld %ld %ld\n", nb.empty() ? -1 : (int)nb[0].size(), inf, nonfinite, linf);
 }
